@@ -1,6 +1,7 @@
 package main
 
 import (
+	"time"
 	"errors"
 	"fmt"
 	"io"
@@ -412,7 +413,19 @@ func genC08(g *G) {
 		return strings.Join(st, ",")
 	}
 	emitParse := func(nameMode, kind string, bufcap int, file string, script string) {
-		reads, _, _, _ := runParse(nameMode, "d", bufcap, []byte(file), parseScript(script))
+		// the reader's answers are recorded by a first run, outside the watchdog: if that run does not
+		// come back, go on without them; the run of the case itself (below) is watched and names the case
+		var reads []string
+		recorded := make(chan []string, 1)
+		go func() {
+			defer func() { _ = recover() }()
+			r, _, _, _ := runParse(nameMode, "d", bufcap, []byte(file), parseScript(script))
+			recorded <- r
+		}()
+		select {
+		case reads = <-recorded:
+		case <-time.After(10 * time.Second):
+		}
 		var fields, names []string
 		for _, ln := range strings.FieldsFunc(file, func(r rune) bool { return r == '\n' }) {
 			ln = strings.TrimSuffix(ln, "\r")
@@ -467,6 +480,8 @@ func genC08(g *G) {
 		emitParse("-", "h", 0, "1.2.3.4 a\n::1 b", "3n,"+strings.TrimSuffix(strings.Repeat("0n,", n), ","))
 		emitParse("-", "p", 0, "1.2.3.4 a\n::1 b", strings.TrimSuffix(strings.Repeat("0n,", n), ","))
 	}
+	// (thorough tier only: the extracted model reverses lists naively and needs minutes for a 64 KiB
+	// line; in the quick tier such lines are given to Parse by the C01 stream, which only asks for a return)
 	if !g.Quick() {
 		for _, n := range []int{65534, 65535, 65536, 65537} {
 			long := "1.2.3.4 " + strings.Repeat("a", n-8)
